@@ -266,6 +266,230 @@ def corner_session(k):
     return s, [v for v in vs if isinstance(v, BoolVar)], [v for v in vs if not isinstance(v, BoolVar)]
 
 
+def _bigint_specs():
+    """(declarations, [(build(vars) -> real constraint, shadow(asg) -> bool)], key positions or None = all): deterministic
+    sessions whose FACTS are integers outside CPython's small-int cache (-5..256) -- every solver reply brings such a value as
+    a fresh object -- next to other keys that stay undetermined (so that a refinement loop sees several satisfiable replies),
+    at the edges of the cache (256/257, -5/-6), as the only fact, with keys next to non-keys, and unsatisfiable."""
+    specs = [
+        # x in [298,302], n in [0,9], a free Boolean, a free m in [0,2]; n == 7, x - n == 293  (x = 300)
+        ([(298, 302), (0, 9), "b", (0, 2)],
+         [(lambda v: v[1] == 7, lambda a: a["i1"] == 7), (lambda v: v[0] - v[1] == 293, lambda a: a["i0"] - a["i1"] == 293)], None),
+        ([(99998, 100003), "b", (0, 1)], [(lambda v: v[0] == 100000, lambda a: a["i0"] == 100000)], None),
+        (["b", (-303, -298), (-1, 1)],
+         [(lambda v: v[1] + 300 == 0, lambda a: a["i1"] + 300 == 0), (lambda v: v[2] != 0, lambda a: a["i2"] != 0)], None),
+        ([(257, 259), (1000, 1002), (256, 258), "b"],
+         [(lambda v: v[0] >= 259, lambda a: a["i0"] >= 259), (lambda v: v[2] == 257, lambda a: a["i2"] == 257),
+          (lambda v: v[3] == (v[1] == 1001), lambda a: a["b3"] == (a["i1"] == 1001))], None),
+        # keys next to non-keys: the undetermined non-key n must not matter, the free Boolean key keeps the loop going
+        ([(298, 302), (0, 9), "b", "b"], [(lambda v: v[0] == 300, lambda a: a["i0"] == 300), (lambda v: v[3], lambda a: a["b3"])], [0, 2]),
+        ([(298, 302), (0, 9), "b"], [(lambda v: v[0] - v[1] == 293, lambda a: a["i0"] - a["i1"] == 293),
+                                    (lambda v: v[1] >= 7, lambda a: a["i1"] >= 7), (lambda v: v[1] <= 7, lambda a: a["i1"] <= 7)], [0, 2]),
+        # the edges of the cache
+        ([(255, 258), (255, 258), (-7, -4), (-7, -4), "b"],
+         [(lambda v: v[0] == 256, lambda a: a["i0"] == 256), (lambda v: v[1] == 257, lambda a: a["i1"] == 257),
+          (lambda v: v[2] == -6, lambda a: a["i2"] == -6), (lambda v: v[3] == -5, lambda a: a["i3"] == -5)], None),
+        # a large fact forced only through other variables, several undetermined keys (several rounds of the loop)
+        (["b", "b", (998, 1003), (0, 3), (0, 3)],
+         [(lambda v: v[2] == v[0].cond(1000, 1000) + 0, lambda a: a["i2"] == 1000),
+          (lambda v: v[3] + v[4] == 3, lambda a: a["i3"] + a["i4"] == 3)], None),
+        # large values on undetermined keys only / a large singleton domain / everything determined / unsatisfiable
+        ([(1000, 1002), (-304, -302), "b"], [(lambda v: v[0] + v[1] >= 698, lambda a: a["i0"] + a["i1"] >= 698), (lambda v: v[2], lambda a: a["b2"])], None),
+        ([(100000, 100000), (0, 2), "b"], [(lambda v: v[2].then(v[1] >= 1), lambda a: (not a["b2"]) or a["i1"] >= 1)], None),
+        ([(298, 302), "b", "b"], [(lambda v: v[0] == 301, lambda a: a["i0"] == 301), (lambda v: v[1] & ~v[2], lambda a: a["b1"] and not a["b2"])], None),
+        ([(300, 301), "b"], [(lambda v: v[0] < 300, lambda a: a["i0"] < 300)], None),
+    ]
+    return specs
+
+
+N_BIGINT = len(_bigint_specs())
+
+
+def bigint_session(k):
+    """The k-th deterministic large-value session: (solver, bools, ints) like random_session; the variables meant to be the
+    answer keys are in solver._verif_keys (not yet registered)."""
+    from cspuz import Solver
+    from cspuz.expr import BoolVar
+    decls, items, keys = _bigint_specs()[k % N_BIGINT]
+    s = Solver()
+    s._verif_sems = []
+    s._verif_posts = []
+    vs = [s.bool_var() if d == "b" else s.int_var(d[0], d[1]) for d in decls]
+    for build, shadow in items:
+        c = build(vs)
+        s._verif_posts.append([-1, [exprio.pexpr(c)]])
+        s.ensure(c)
+        s._verif_sems.append(shadow)
+    s._verif_keys = [vs[i] for i in (range(len(vs)) if keys is None else keys)]
+    return s, [v for v in vs if isinstance(v, BoolVar)], [v for v in vs if not isinstance(v, BoolVar)]
+
+
+LARGE_KINDS = ["forced", "chain", "mixed"]
+LARGE_CASES = [("forced", 513), ("chain", 520), ("mixed", 1030), ("forced", 1030)]
+
+
+def large_session(kind, n):
+    """A LARGE program (n Boolean variables and a few integers; brute force is out of the question) whose exact facts are known
+    BY CONSTRUCTION.  Returns (solver, facts, text): the answer keys are registered, facts[i] is the value variable i takes in
+    every solution (None = two solutions differ on it), text describes the program.  Every program is satisfiable.
+      forced : b0..b(n-4) posted as unit constraints (true); the last three Booleans free except b(n-3) | b(n-2); then, declared
+               after them, t in [0,7] with 2 <= t <= 5 (undetermined) and w in [295,305] with w == 300; every variable a key
+      chain  : b0 posted, b(i) == b(i+1) for i < n-4 (all true through the chain, posted from the far end backwards); the last
+               three only tied to each other (b(n-3) == b(n-2), b(n-2) != b(n-1): undetermined); x0 == x1 == ... == x4 in [0,3] with
+               x0 free (undetermined), y in [0,3] with y == 2; every variable a key
+      mixed  : position i is an integer in [0,2] when i % 7 == 3, else a Boolean; Booleans are forced to (i % 2 == 0), integers to
+               1 -- except the positions 5, 300, 511, 512, 710 and n-1, which stay free; keys are the positions with i % 3 != 1"""
+    from cspuz import Solver
+    s = Solver()
+    facts = []
+    if kind == "forced":
+        bs = [s.bool_var() for _ in range(n)]
+        for b in bs[:n - 3]:
+            s.ensure(b)
+        s.ensure(bs[n - 3] | bs[n - 2])
+        t = s.int_var(0, 7)
+        w = s.int_var(295, 305)
+        s.ensure(t >= 2, t <= 5)
+        s.ensure(w == 300)
+        s.add_answer_key(bs)
+        s.add_answer_key(t, w)
+        facts = [True] * (n - 3) + [None] * 4 + [300]
+        text = (f"{n} Boolean keys b0..b{n-1}: ensure(b_i) for i < {n-3}, ensure(b{n-3} | b{n-2}); then t = int_var(0,7) with 2 <= t <= 5 "
+                f"and w = int_var(295,305) with w == 300; all {n+2} variables are answer keys")
+    elif kind == "chain":
+        bs = [s.bool_var() for _ in range(n)]
+        xs = [s.int_var(0, 3) for _ in range(5)]
+        y = s.int_var(0, 3)
+        for i in range(n - 5, -1, -1):
+            s.ensure(bs[i] == bs[i + 1])
+        s.ensure(bs[0])
+        s.ensure(bs[n - 3] == bs[n - 2], bs[n - 2] != bs[n - 1])
+        for i in range(4):
+            s.ensure(xs[i] == xs[i + 1])
+        s.ensure(y == 2)
+        s.add_answer_key(bs, xs, y)
+        facts = [True] * (n - 3) + [None] * 3 + [None] * 5 + [2]
+        text = (f"{n} Boolean keys: ensure(b0), b_i == b_(i+1) for i < {n-4}; b{n-3} == b{n-2}, b{n-2} != b{n-1}; five integers in [0,3] "
+                f"chained by equalities (free), y in [0,3] with y == 2; all {n+6} variables are answer keys")
+    elif kind == "mixed":
+        free = {5, 300, 511, 512, 710, n - 1}
+        vs = []
+        for i in range(n):
+            vs.append(s.int_var(0, 2) if i % 7 == 3 else s.bool_var())
+        for i, v in enumerate(vs):
+            if i in free:
+                facts.append(None)
+            elif i % 7 == 3:
+                s.ensure(v == 1)
+                facts.append(1)
+            elif i % 2 == 0:
+                s.ensure(v)
+                facts.append(True)
+            else:
+                s.ensure(~v)
+                facts.append(False)
+        s.add_answer_key([v for i, v in enumerate(vs) if i % 3 != 1])
+        text = (f"{n} variables (an integer in [0,2] where i % 7 == 3, else a Boolean); Booleans forced to (i % 2 == 0), integers to 1, "
+                f"except the free positions {sorted(p for p in free if p < n)}; answer keys = positions with i % 3 != 1")
+    else:
+        raise ValueError(kind)
+    return s, facts, text
+
+
+def scalable_models(names, doms, trees, ev, or_op, and_op, limit=300000):
+    """All models of a program that is too large for the plain product of its domains but is mostly decided by propagation:
+    (1) domains are narrowed to a fixpoint with every constraint that mentions a single undecided variable (evaluated, not
+    pattern-matched: `ev(tree, assignment)` is the caller's evaluator); (2) the remaining variables are enumerated (OverflowError
+    above `limit` combinations) against the constraints that mention them, where the decided parts of top-level disjunctions /
+    conjunctions (`or_op` / `and_op`) are evaluated once.  The models come in the order of the plain product."""
+    import itertools
+    nameset = set(names)
+    dom = {nm: list(d) for nm, d in zip(names, doms)}
+
+    def mentioned(t, acc):
+        if isinstance(t, list):
+            for x in t[1:]:
+                mentioned(x, acc)
+        elif isinstance(t, str) and t in nameset:
+            acc.add(t)
+        return acc
+    uses = [sorted(mentioned(t, set())) for t in trees]
+    fixed = {nm: d[0] for nm, d in dom.items() if len(d) == 1}
+    done = [False] * len(trees)
+    by_var = {}
+    for k, u in enumerate(uses):
+        for nm in u:
+            by_var.setdefault(nm, []).append(k)
+    queue = list(range(len(trees)))[::-1]
+    while queue:
+        k = queue.pop()
+        if done[k]:
+            continue
+        t = trees[k]
+        open_ = [nm for nm in uses[k] if nm not in fixed]
+        if len(open_) > 1:
+            continue                                  # looked at again when one of its variables gets decided
+        done[k] = True
+        if not open_:
+            if ev(t, fixed) is not True:
+                return []
+            continue
+        nm = open_[0]
+        asg = {u: fixed[u] for u in uses[k] if u in fixed}
+        keep = []
+        for val in dom[nm]:
+            asg[nm] = val
+            if ev(t, asg) is True:
+                keep.append(val)
+        if not keep:
+            return []
+        dom[nm] = keep
+        if len(keep) == 1:
+            fixed[nm] = keep[0]
+            queue += [j for j in by_var[nm] if not done[j]]
+    total = 1
+    for nm in names:
+        total *= len(dom[nm])
+        if total > limit:
+            raise OverflowError
+
+    def fold(t):
+        """(True, value) when t mentions no open variable, else (False, closure over a full assignment)"""
+        if not any(nm not in fixed for nm in mentioned(t, set())):
+            return True, ev(t, fixed)
+        if isinstance(t, list) and t[0] in (or_op, and_op):
+            absorbing = t[0] == or_op
+            dyn = []
+            for x in t[1:]:
+                const, val = fold(x)
+                if not const:
+                    dyn.append(val)
+                elif val is absorbing:
+                    return True, absorbing
+                elif val is not (not absorbing):
+                    return False, (lambda a, t=t: ev(t, a))      # not a plain truth value: leave it to the evaluator
+            if absorbing:
+                return False, (lambda a, dyn=dyn: any(f(a) is True for f in dyn))
+            return False, (lambda a, dyn=dyn: all(f(a) is True for f in dyn))
+        return False, (lambda a, t=t: ev(t, a))
+    checks = []
+    for k, t in enumerate(trees):
+        if done[k]:
+            continue
+        const, val = fold(t)
+        if const:
+            if val is not True:
+                return []
+        else:
+            checks.append(val)
+    out = []
+    for combo in itertools.product(*[dom[nm] for nm in names]):
+        asg = dict(zip(names, combo))
+        if all(f(asg) is True for f in checks):
+            out.append(asg)
+    return out
+
+
 DECL_FAILURES = []
 
 
